@@ -21,15 +21,15 @@ CHECKS = {
                 note="exploration over sampled schedules and plans; filter expressions are types, so 'all expressions' is a catalogue of every combinator at depth <= 2; when thresholds change while a statement is alive and the expression's verdict differs between those states, either verdict is accepted (but only one: evaluated callables imply delivery)",
                 tech="deterministic simulation: seeded thread scheduler + fault injection (threshold flips, throwing callables, clock jumps) with per-statement reference oracle"),
     "C09": dict(engine="logsim", level="exploration", ref="3.1",
-                text="2-4 simulated threads log through stdout_mt / StdErrThreaded / sequence<stdout_mt,StdErrThreaded>; std::mutex lock/unlock/trylock are scheduler yield points with modelled ownership, and the buffer of cout/cerr is a chunking, buffered, deliberately not thread-safe stream buffer with yields inside xsputn/sync; after each run the device bytes must parse as whole records, the multiset of records must equal the enabled statements, each thread's records must be in program order, no thread may enter the buffer while another is inside, no mutex may stay owned, and the run must terminate (deadlock = no runnable thread)",
-                note="interleavings explored at the granularity of the yield points (mutex calls, stream buffer, filter/formatter/sink/callable/clock calls, workload steps) with uniform-random and PCT-style strategies; also wrapped: timed/rw/spin locks and sched_yield (timed locks may time out); a device I/O error part-way through a run is injected in some runs and then only liveness, mutual exclusion and lock release are judged (badbit discards records by specification); cerr's tie to cout is switched off for the combined sequence sink (outside the property's quantifier); a busy-wait on an atomic without yielding cannot be simulated and is reported as inconclusive (exit 2), never as a verdict",
+                text="2-4 simulated threads (and, about once in 600 runs, a crowd of 258-300 threads queued behind a stalled writer) log through stdout_mt / StdErrThreaded / sequence<stdout_mt,StdErrThreaded>; std::mutex lock/unlock/trylock are scheduler yield points with modelled ownership, and the buffer of cout/cerr is a chunking, buffered, deliberately not thread-safe stream buffer with yields inside xsputn/sync; after each run the device bytes must parse as whole records, the multiset of records must equal the enabled statements, each thread's records must be in program order, no thread may enter the buffer while another is inside, no mutex may stay owned, and the run must terminate (deadlock = no runnable thread)",
+                note="interleavings explored at the granularity of the yield points (mutex calls, stream buffer, filter/formatter/sink/callable/clock calls, workload steps) with uniform-random and PCT-style strategies; also simulated: timed/rw/spin locks and sched_yield (timed locks may time out), condition variables, POSIX semaphores (a blocked sem_wait may return EINTR) and fork() as seen by the parent (registered pthread_atfork prepare/parent handlers run in the forking thread while the others log; no process is created); a device I/O error part-way through a run is injected in some runs and then only liveness, mutual exclusion and lock release are judged (badbit discards records by specification); cerr's tie to cout is switched off for the combined sequence sink (outside the property's quantifier); a busy-wait on an atomic without yielding cannot be simulated and is reported as inconclusive (exit 2), never as a verdict",
                 tech="deterministic simulation: seeded scheduler over parked real threads, link-time wrapped mutexes, racy simulated stream device"),
     "C10": dict(engine="logsim", level="exploration", ref="3.1",
                 text="same runs as C05 (different seeds): below the compile-time minimum no filter evaluation, no record construction, no formatter/sink call, no callable invocation, and the stream type is an empty trivially-destructible class (read with type traits); a statement rejected by the runtime filter reaches neither formatter nor sink and calls no callable; for an emitted record every streamed callable is called exactly once inside the insertion that streamed it",
                 note="the type clause is a compile-time fact the simulation only reads; runtime clauses are exploration over sampled plans/schedules with threshold flips in flight",
                 tech="deterministic simulation: seeded scheduler + threshold-flip fault injection with call-count oracle"),
     "C06": dict(engine="fvsim", level="fault_enumeration", ref="3.2",
-                text="seeded operation histories on fixed_vector<T> (three instrumented element types, capacities 0-6) run under ASan/UBSan; for the chosen operation(s) of each history every single fault position (k-th element special-member call throws, k-th allocation fails) is enumerated, plus sampled fault pairs; safety clauses (size<=capacity, no unfilled slot visible, must-raise refusals, refusal leaves state unchanged, no leak / double destruction, injected exception propagates, strong guarantee for single-element ops) are checked after every operation",
+                text="seeded operation histories on fixed_vector<T> (four instrumented element types - copyable, move-only, copy-only, trivially copyable - capacities 0-6, positions taken from the container itself or from another live container) run under ASan/UBSan; for the chosen operation(s) of each history every single fault position (k-th element special-member call throws, k-th allocation fails) is enumerated, plus sampled fault pairs; safety clauses (size<=capacity, no unfilled slot visible, must-raise refusals, refusal leaves state unchanged, no leak / double destruction, injected exception propagates, strong guarantee for single-element ops) are checked after every operation",
                 note="sampled histories (not exhaustive); complete only over single-fault positions of the chosen operations; ASan red zones define 'outside the capacity slots'; element types and allocator are simulator stubs, fixed_vector is the real header from /repo's working tree",
                 tech="deterministic simulation with enumerated fault injection (element-operation throws, allocation failures) against a reference model"),
     "C07": dict(engine="fvsim", level="exploration", ref="3.2",
@@ -37,7 +37,7 @@ CHECKS = {
                 note="seeded sampling, not the exhaustive depth-bounded enumeration the statement mentions (that would be model checking); state of moved-from containers is not prescribed beyond being readable and size<=capacity",
                 tech="deterministic simulation: seeded call histories checked step by step against an executable reference model (fault-free arm)"),
     "C18": dict(engine="ownsim", level="fault_enumeration", ref="3.5",
-                text="seeded histories over pools of quaint_ptr slots, one std::vector<quaint_ptr> (reallocating) and optional<Payload> objects with three unrelated payload types; after every operation the set of payloads reachable through the real owners must equal the set alive (conservation: nothing leaked, nothing destroyed early), destructors must run with the creation type, moved-from/reset pointers must be empty, optionals must copy deeply / empty on assign-empty / raise on read-empty; for the chosen operation(s) every allocation and payload-constructor fault position is enumerated",
+                text="seeded histories over pools of quaint_ptr slots, one std::vector<quaint_ptr> (reallocating) and optional<Payload> objects with five payload types (different sizes and layouts, one with two bases, one that resets its owner from its own destructor), optional<bool>, ADL swap; after every operation the set of payloads reachable through the real owners must equal the set alive (conservation: nothing leaked, nothing destroyed early), destructors must run with the creation type, moved-from/reset pointers must be empty, optionals must copy deeply / empty on assign-empty / raise on read-empty; for the chosen operation(s) every allocation and payload-constructor fault position is enumerated",
                 note="sampled histories; complete only over single-fault positions of the chosen operations; self-move-assignment not generated",
                 tech="deterministic simulation with enumerated fault injection (allocation failures, throwing payload constructors) against an ownership-table model"),
     "C13": dict(engine="optsim", level="exploration", ref="3.3",
